@@ -287,4 +287,20 @@ structure Handlers where
   newMock : MockConfig → Handler
   newOIDC : OIDCConfig → Handler × Go.Error
 
+/-! ### structpb.Value (the `skip_verify_peer_cert` field: a bool or, for backwards compatibility, a string) -/
+
+inductive Value_Kind where
+  | nil
+  | BoolValue (v : Bool)
+  | StringValue (v : Str)
+  | Other                      -- null, number, struct, list
+  deriving Repr, BEq, DecidableEq
+
+structure Value where
+  isNil : Bool := false
+  Kind : Value_Kind := .nil
+  deriving Repr, BEq, DecidableEq
+def Value.GetStringValue (v : Value) : Str := if v.isNil then [] else match v.Kind with | .StringValue s => s | _ => []
+def Value.GetBoolValue (v : Value) : Bool := if v.isNil then false else match v.Kind with | .BoolValue b => b | _ => false
+
 end AuthModel.Pb
